@@ -424,11 +424,23 @@ def main_dispatch(registry):
         mod = __import__(registry[pid], fromlist=['run'])
         getattr(mod, 'run_' + pid, getattr(mod, 'run', None))(ctx)
     except MachineryError as e:
+        if ctx.violations:
+            print('NOTE property=%s: machinery failure after %d violation(s) had been reported: %s' % (pid, len(ctx.violations), str(e)[:500]))
+            ctx.write_evidence()
+            sys.exit(1)
         print('MACHINERY-FAILURE property=%s: %s' % (pid, e))
         ctx.notes['machinery_failure'] = str(e)[:2000]
         ctx.write_evidence()
         sys.exit(2)
     except Exception:
+        if ctx.violations:
+            # violations were already reported with replay files; a later harness exception on code
+            # that already violates the property (e.g. the recorder meeting an impossible state) does
+            # not turn the verdict into a machinery failure
+            print('NOTE property=%s: harness exception after %d violation(s) had been reported' % (pid, len(ctx.violations)))
+            traceback.print_exc()
+            ctx.write_evidence()
+            sys.exit(1)
         print('MACHINERY-FAILURE property=%s (harness exception)' % pid)
         traceback.print_exc()
         sys.exit(2)
